@@ -31,7 +31,11 @@ pub fn exec(func: &str, a: &mut Args) -> String {
             format!("{} ; {}", one(&pts), one(&scaled)) }
         // ConvexPolyhedron::from_convex_hull: every adjacency table + feature_normal of every feature
         "polyhedron" => { let n = a.u(); let pts: Vec<_> = (0..n).map(|_| d3::p(a)).collect();
-            match crate::p3::shape::ConvexPolyhedron::from_convex_hull(&pts) { None => "none".into(), Some(p) => dump_poly(&p) } }
+            // the hull mesh the polyhedron is built from is an observed internal input of the model (`<mesh> ;; <output>`)
+            let mesh = match try_convex_hull(&pts) { Err(_) => None, Ok((v, t)) => Some(format!("{} {} {} {}", v.len(), v.iter().map(d3::hp).collect::<Vec<_>>().join(" "), t.len(),
+                    t.iter().map(|t| format!("{} {} {}", t[0], t[1], t[2])).collect::<Vec<_>>().join(" "))) };
+            let out = match crate::p3::shape::ConvexPolyhedron::from_convex_hull(&pts) { None => "none".into(), Some(p) => dump_poly(&p) };
+            match mesh { Some(m) => format!("{} ;; {}", m, out), None => out } }
         // ConvexPolyhedron::from_convex_mesh on an explicit triangle mesh
         "polymesh" => { let n = a.u(); let pts: Vec<_> = (0..n).map(|_| d3::p(a)).collect();
             let m = a.u(); let tris: Vec<[u32; 3]> = (0..m).map(|_| [a.u() as u32, a.u() as u32, a.u() as u32]).collect();
